@@ -215,6 +215,10 @@ class Gen:
             return L.fn(r.choice(["yes", "no", "true", "false"]))
         if c == "between":
             op = r.choice(["between", "inside", "from_to", "range", "beyond", "outside"])
+            ncols = self.cols({"num"})
+            if ncols and r.random() < 0.3:
+                # all three operands are cells (text that looks like numbers, of different lengths): compared as numbers
+                return L.fn(op, self.href(r.choice(ncols)), self.href(r.choice(ncols)), self.href(r.choice(ncols)))
             if r.random() < 0.7:
                 return L.fn(op, self.cmp_num(d + 1), self.num(d + 1), self.num(d + 1))
             return L.fn(op, self.text(d + 1), self.text(d + 1), self.text(d + 1))
@@ -716,6 +720,14 @@ class Gen:
             # an error raised by what last() triggers: on a file that ends in a blank record only the last() components run
             # (Matcher._do_lasts), and what they raise is handled under the policy like an error on any other line
             comps.append(L.when(L.fn("last"), L.assign(L.var(self.fresh("x")), L.fn("mod", L.term(r.choice([5, 7])), L.term(0)))))
+        ncols_ = self.cols({"num"}, strict=True)
+        if ncols_ and r.random() < 0.2:
+            # an interval test whose three operands are all text that looks like numbers (cells, quoted numbers of different lengths):
+            # numbers are compared as numbers whatever they are written in
+            lo, hi = r.choice([("9", "10"), ("5", "100"), ("2", "11"), ("10", "9"), ("100", "20")])
+            a = self.href(r.choice(ncols_))
+            b = self.href(r.choice(ncols_)) if (len(ncols_) > 1 and r.random() < 0.4) else L.term(lo)
+            comps.insert(r.randint(0, len(comps)), L.fn(r.choice(["between", "inside", "from_to", "range", "beyond", "outside"]), a, b, L.term(hi)))
         if "stateful" in self.groups and r.random() < 0.15:
             # a counter whose increment is 0 on some or all lines: it stays where it is (the increment is what the argument says)
             strict_num = self.cols({"num"}, strict=True)
